@@ -4,6 +4,7 @@ mod drive_paserk;
 mod drive_tokens;
 mod keys;
 mod obs_b64;
+mod obs_claims;
 mod obs_pae;
 mod payload;
 mod prng;
@@ -35,6 +36,11 @@ fn main() {
             println!("lines={}", rec.finish());
         }
         "gen-fixtures" => keys::gen_fixtures(),
+        "obs-claims" => {
+            let mut rec = Recorder::create(&out);
+            let (n, nu) = obs_claims::run(&mut rec, &arg(&args, "--cases").expect("--cases"), thorough, seed);
+            println!("{}", serde_json::json!({"lines": rec.finish(), "direct": n, "through_unseal": nu}));
+        }
         "paserk" => {
             let mut rec = Recorder::create(&out);
             let backends: Vec<String> = arg(&args, "--backends").map(|b| b.split(',').map(|x| x.to_string()).collect()).unwrap_or_else(|| backends::ALL.iter().map(|x| x.to_string()).collect());
